@@ -34,4 +34,26 @@ TagListing(L, lo, hi) == [n \in DOMAIN L |-> IF MustTag(L[n], lo, hi) THEN Tagge
 
 \* padding lines (raw bytes only) give a pseudo instruction "empty" that is dropped
 RemoveEmpty(L) == SelectSeq(L, LAMBDA i : i.mn # "empty")
+
+(***************************************************************************)
+(* The observer chain as implemented (consumer._process_instruction): every *)
+(* observer is handed the ORIGINAL instruction, the result is the last      *)
+(* observer's, and a None stops the chain -- versus the chain as a          *)
+(* composition of partial functions.  For the shipped chain <<RemoveEmpty,  *)
+(* ValidAddr>> the two coincide (RemoveEmpty is a filter); with two         *)
+(* transforming observers they would not (MC_C18 exhibits it as a control). *)
+(***************************************************************************)
+Dropped == Ins("", "", <<>>)
+ObsRemoveEmpty(i) == IF i.mn = "empty" THEN Dropped ELSE i
+ObsApply(o, i) ==      \* o = <<"empty">> | <<"valid", lo, hi>> | <<"upper">> (a hypothetical second transformer)
+    CASE o[1] = "empty" -> ObsRemoveEmpty(i)
+      [] o[1] = "valid" -> IF MustTag(i, o[2], o[3]) THEN Tagged(i) ELSE i
+      [] OTHER          -> [i EXCEPT !.mn = i.mn \o "'"]
+RECURSIVE ChainImpl(_, _, _), ChainComposed(_, _)
+ChainImpl(obs, orig, acc) ==          \* acc: result so far
+    IF obs = <<>> THEN acc
+    ELSE LET r == ObsApply(Head(obs), orig) IN IF r = Dropped THEN Dropped ELSE ChainImpl(Tail(obs), orig, r)
+ChainComposed(obs, i) ==
+    IF obs = <<>> THEN i
+    ELSE LET r == ObsApply(Head(obs), i) IN IF r = Dropped THEN Dropped ELSE ChainComposed(Tail(obs), r)
 =============================================================================
